@@ -369,3 +369,7 @@ NOT_APPLICABLE = {}
 PROPS['C05']['explanation'] += (' REGENERATED from src/node/optimize.rs on this run (Gen/Shapes.v): C05_optimize_covers_every_list - Node::optimize returns early exactly on a clean node, recurses into all seven child lists, sorts all seven, refreshes both shortcut flags and clears the dirty mark, as Model/Ops.v optimize does.')
 PROPS['C09']['explanation'] += (' REGENERATED from src/node/delete.rs on this run (Gen/Shapes.v): C09_prune_and_merge_tests_cover_every_list - is_empty and is_compressible test the data and all seven child lists, as Model/Ops.v is_empty / is_compressible do.')
 PROPS['C15']['explanation'] += (' REGENERATED from src/node/display.rs on this run (Gen/Shapes.v): C15_printer_walks_the_seven_lists_in_kind_order - debug_node walks the seven child lists in the order of kinds of the model printer, every child through `count -= 1; debug_node(.., count == 0)?`, `count` starting as the sum of the seven lengths.')
+PROPS['C15']['explanation'] += (' REGENERATED from src/state.rs (Gen/Keys.v): C15_stored_key_is_the_printed_label - the format string of the printable key each parameter state stores, interpreted over EVERY name and constraint, is the label node_label of the model printer; C15_literal_key_is_lossy_text_and_paddings - a literal node stores String::from_utf8_lossy(&prefix).')
+PROPS['C03']['explanation'] += (' REGENERATED from src/state.rs (Gen/Keys.v): C03_sibling_order_is_name_then_constraint - the eight Ord impls compare the name (literal nodes: the prefix), constrained states then the constraint, every PartialOrd delegates; the model order kcmp is that comparison.')
+PROPS['C10']['explanation'] += (' REGENERATED from src/router.rs (Gen/Shapes.v): C10_validation_precedes_mutation - in Router::insert and Router::delete every validation step returns before the first mutating call, conflicts are sorted then deduplicated, optimize follows the mutation loop, and a delete that removed nothing reports NotFound before optimize: the order of Model/Router.v.')
+PROPS['C08']['explanation'] += (' REGENERATED from src/router.rs (Gen/Shapes.v): C08_conflicts_collected_sorted_then_deduplicated.')
